@@ -72,6 +72,7 @@ Section Step.
 Variables (s s' : sys) (o : op) (mo : sobs).
 Hypothesis Hs : gstep g s o = (s', mo).
 Hypothesis HI : Inv g s.
+Hypothesis HP : ps_pcap (s_ps s) = g_pcap g.
 Let m := mon_of g s.
 Let x := obs_of g s' mo.
 
@@ -207,7 +208,7 @@ Proof.
   destruct (is_hi t) eqn:Hh; [|reflexivity]. cbn [negb orb]. apply orb_true_iff. right.
   apply in_dump in Hat. destruct Hat as [e [He [Hp [Ha Ht]]]].
   rewrite E, Ec, consume_book in He. rewrite (peer_conn g c cn Hcn) in *.
-  rewrite <- Ht in Hh. destruct (consumed_source _ _ _ _ e He Hp Hh) as [w [Hw [Hid Hsfx]]].
+  rewrite <- Ht in Hh. destruct (consumed_source _ _ _ _ _ e He Hp Hh) as [w [Hw [Hid Hsfx]]].
   apply (allowed_intro (c_peer cn) cs m0 cn a w); try assumption; [reflexivity|congruence].
 Qed.
 
@@ -297,12 +298,34 @@ Proof.
   - subst o. discriminate.
 Qed.
 
+(* the book after a step about connection c, for the cap clause *)
+Lemma c_bookcap : cl_bookcap g m o x = true.
+Proof.
+  unfold cl_bookcap, subj_peer. destruct (subject o) as [c|] eqn:S; [|reflexivity].
+  destruct (0 <? g_pcap g) eqn:Cp; [|reflexivity]. apply Z.ltb_lt in Cp.
+  unfold m, x. cbn [mn_dump mon_of wo_dump obs_of].
+  destruct (peers_dec np (peer c)) as [Hi|Ho].
+  2:{ rewrite !nth_dump_out by exact Ho. apply Z.leb_le. unfold cnt, no_dump, zlen. cbn. lia. }
+  rewrite !nth_dump_in by exact Hi. apply Z.leb_le. rewrite cnt_unconn_dump, total_dump.
+  assert (Hcap : ps_pcap (s_ps s) = g_pcap g) by apply HP.
+  destruct sh as [E _ _ _|c0 cs cn m0 push _ Hsub Hcn _ Ec E _|c0 order cn Ho Hcn _ Ec E _|d Ho _ _].
+  - rewrite E. pose proof (ucount_le_pcount (peer c) (a_ents (ps_book (s_ps s)))). lia.
+  - rewrite S in Hsub. inversion Hsub; subst c0. rewrite E, Ec, consume_book, Hcap, (peer_conn g c cn Hcn).
+    now apply consumed_bookcap.
+  - subst o. cbn in S. inversion S; subst c0. rewrite E, Ec, disconnected_book, Hcap, (peer_conn g c cn Hcn).
+    now apply disconnected_bookcap.
+  - subst o. discriminate.
+Qed.
+
 Lemma mon_step_ok : mon_step g m o x = [].
 Proof.
   unfold mon_step, clauses. cbn [flat_map fst snd].
   now rewrite c_calls, c_events, c_others, c_key, c_protos, c_cap, c_source, c_recent, c_fallback,
     c_connected, c_wait, c_evrec.
 Qed.
+
+Lemma mon_step_all_ok : mon_step_all g m o x = [].
+Proof. unfold mon_step_all. now rewrite mon_step_ok, c_bookcap. Qed.
 
 Lemma mon_next_ok : mon_next g m o x = mon_of g s'.
 Proof.
@@ -311,6 +334,12 @@ Proof.
 Qed.
 End Step.
 
+Lemma step_pcap s o s' mo : gstep g s o = (s', mo) -> ps_pcap (s_ps s') = ps_pcap (s_ps s).
+Proof.
+  intros Hs. destruct (step_shape g s o s' mo Hs) as [E _ _ _|c cs cn m push _ _ _ _ _ E _|c order cn _ _ _ _ E _|d _ E _];
+    rewrite E; try reflexivity; apply apply_ops_pcap.
+Qed.
+
 (* ---- the whole trace ------------------------------------------------------------------------ *)
 Lemma mon_run_model ops : forall s i, Inv g s -> mon_run g (mon_of g s) i (model_trace g s ops) = [].
 Proof.
@@ -318,6 +347,16 @@ Proof.
   destruct (gstep g s o) as [s' mo] eqn:Hs. cbn [mon_run].
   rewrite (mon_step_ok s s' o mo Hs HI), (mon_next_ok s s' o mo Hs). apply IH.
   now apply (step_inv g s o s' mo Hs).
+Qed.
+
+Lemma mon_run_all_model ops : forall s i, Inv g s -> ps_pcap (s_ps s) = g_pcap g ->
+  mon_run_all g (mon_of g s) i (model_trace g s ops) = [].
+Proof.
+  induction ops as [|o ops IH]; intros s i HI HP; [reflexivity|]. cbn [model_trace].
+  destruct (gstep g s o) as [s' mo] eqn:Hs. cbn [mon_run_all].
+  rewrite (mon_step_all_ok s s' o mo Hs HI HP), (mon_next_ok s s' o mo Hs). apply IH.
+  - now apply (step_inv g s o s' mo Hs).
+  - now rewrite (step_pcap s o s' mo Hs).
 Qed.
 
 End Mon.
@@ -359,6 +398,10 @@ Lemma monitor_accepts_model_l g ops : init_wf g = true ->
   mon_run g (mon_init g) 0 (model_trace g (init_sys g) ops) = [].
 Proof. intros Hw. apply (mon_run_model g ops (init_sys g) 0). now apply init_inv. Qed.
 
+Lemma monitor_all_accepts_model_l g ops : init_wf g = true ->
+  mon_run_all g (mon_init g) 0 (model_trace g (init_sys g) ops) = [].
+Proof. intros Hw. apply (mon_run_all_model g ops (init_sys g) 0); [now apply init_inv|reflexivity]. Qed.
+
 (* finishing a task closes its wait channel, whatever the answer *)
 Lemma finish_closes g s ch c out : alist_get ch (s_tasks s) = Some c ->
   ~ In (ch, false) (s_chans (fst (gstep g s (OFinish ch c out)))).
@@ -368,13 +411,6 @@ Proof.
   { intros s0 H. unfold finish_task in H. cbn in H. apply close_chan_open in H. now destruct H. }
   destruct out as [| |cs]; cbn [fst]; try apply F.
   destruct (handle_response _ _ _ _ _ _ _ _) as [[[s1 calls] evs]|]; cbn [fst]; apply F.
-Qed.
-
-Lemma mon_run_all_nocap g : g_pcap g = 0 -> forall tr m i, mon_run_all g m i tr = mon_run g m i tr.
-Proof.
-  intros Hp. induction tr as [|[o x] tr IH]; intros m i; [reflexivity|]. cbn [mon_run_all mon_run].
-  unfold mon_step_all, cl_bookcap. rewrite Hp. cbn [Z.ltb Z.compare].
-  destruct (subj_peer g o); rewrite app_nil_r; destruct (mon_step g m o x); try reflexivity; apply IH.
 Qed.
 
 (* ---- race cases: the final-state check accepts the model ------------------------------------------ *)
